@@ -292,6 +292,34 @@ Theorem C08_permits_conserved_mixed_any : forall kind sched v lo md progs,
 Proof. exact permits_conserved_mixed_any. Qed.
 Print Assumptions C08_permits_conserved_mixed_any.
 
+(* what the return values mean on every object of a mixed run (C08_nonblocking_true_iff_consumed,
+   C08_timed_true_iff_consumed, C08_sliding_wait_only_if carried over): read off the object's own log *)
+Theorem C08_return_values_mixed_objects : forall kind sched v lo md progs, (forall ob, 0 <= v ob) -> wf_mprogs progs ->
+  forall ob e, In e (slog (objs (fst (mx_run kind sched v lo md progs)) ob)) ->
+  (ev_op e = TryAcquire ->
+     (ev_res e = true <-> 1 <= ev_avail e) /\ (ev_res e = true <-> ev_taken e = 1) /\ (ev_res e = false <-> ev_taken e = 0)) /\
+  (forall n, 0 < n -> ev_op e = TryWait n ->
+     (ev_res e = true <-> n <= ev_avail e) /\ (ev_res e = true <-> ev_taken e = n) /\ (ev_res e = false <-> ev_taken e = 0)) /\
+  (forall n, 0 < n -> ev_op e = TimedAcquire n ->
+     (ev_res e = true <-> ev_taken e = n) /\ (ev_res e = false <-> ev_taken e = 0) /\ (ev_res e = true -> n <= ev_avail e)) /\
+  (forall n, ev_op e = Acquire n -> ev_res e = true /\ ev_taken e = n /\ n <= ev_avail e) /\
+  (forall u, ev_op e = SlWait u -> ev_res e = true /\ u - ev_maxd e <= ev_lower e) /\
+  (forall u, ev_op e = SlTryWait u -> (ev_res e = true <-> u - ev_maxd e <= ev_lower e)).
+Proof. exact return_values_mixed. Qed.
+Print Assumptions C08_return_values_mixed_objects.
+
+(* what exactly is shared (step level, any state): a step of thread t whose current operation is on
+   object [fst x] leaves the data of every other object untouched, and changes the agent of a thread
+   u <> t only if u is the head of THAT object's cv queue (notify_one), the popped waiter t's OS-thread
+   resume is waiting for, or the target of t's StaleResume *)
+Theorem C08_mixed_objects_step_frame : forall kind o t G L x rest, mtodo L = x :: rest ->
+  let G' := fst (mx_tstep kind o t G L) in
+  (forall X, X <> fst x -> objs G' X = objs G X) /\
+  (forall u, u <> t -> hd_error (queue (objs G (fst x))) <> Some u -> (forall chk k, mpc L <> ResWait u chk k) ->
+             snd x <> StaleResume u -> mag G' u = mag G u).
+Proof. exact mx_step_frame. Qed.
+Print Assumptions C08_mixed_objects_step_frame.
+
 (* non-vacuity: counting object 0 + sliding object 1, three pika tasks; the wake-up token that
    release() on object 0 leaves on the timed waiter makes its first suspend() on object 1 return
    spuriously (shared agent); final state stuck with thread 0 blocked on object 0, value 0 *)
